@@ -1,5 +1,6 @@
 import Mathlib.Tactic.Common
 import PbModel.Contract
+import PbModel.Gen.Ctor
 
 /-! # C16 — Every signal object satisfies its class contract; copies reproduce it faithfully
 
@@ -202,6 +203,16 @@ readable property of the object, so `like(obj)` (and compute/persist/to_dask_arr
 go through it) re-supplies every attribute unchanged. -/
 theorem C16_like_faithful : classTable.all (fun r => likeFaithful r.name) = true := by
   decide +kernel
+
+/-- **no constructor drops an argument** (translator-fed from the `__init__` bodies of `core.py` on every run): every
+parameter of every constructor is either passed on under its own name to `super().__init__` or stored through the property of
+the same name (the data argument of the base class is validated in the body).  A subclass constructor that forgets to pass a
+keyword on — so that objects silently carry the parent's default — no longer satisfies this. -/
+theorem C16_ctor_forwards :
+    Gen.Ctor.extractOk = true ∧
+    Gen.Ctor.ctors.all (fun c => c.2.1.all (fun p => c.2.2.1.contains p || c.2.2.2.contains p)) = true ∧
+    (Gen.Ctor.ctors.map (·.1)) = ["Signal", "RadioSignal", "BasebandSignal", "DualPolarizationSignal"] := by
+  refine ⟨by decide, by decide, by decide⟩
 
 example : ∃ s, construct ⟨"DualPolarizationSignal", [none, none, some 2], ["complex128", "complex64"], true, true, true⟩
     ⟨[16, 3, 2], "complex64", true, .pos, .none, .dict, .neg, .zero, "top", "linear"⟩ = .ok s ∧ s.align = "center" :=
